@@ -1014,7 +1014,18 @@ fn format_subexpression(
             output.push(')');
         }
         ast::Expression::Member(expr, name) => {
-            format_subexpression(expr, prec, OperatorSide::Left, output, context)?;
+            // Keep the dot apart from digits: "51" then ".f" must not read back as the float "51.f"
+            let mut object_text = String::new();
+            format_subexpression(expr, prec, OperatorSide::Left, &mut object_text, context)?;
+            let joins = matches!(expr.node, ast::Expression::Literal(_))
+                && object_text.ends_with(|c: char| c.is_ascii_digit());
+            if joins {
+                output.push('(');
+                output.push_str(&object_text);
+                output.push(')');
+            } else {
+                output.push_str(&object_text);
+            }
             output.push('.');
             format_scoped_identifier(name, output, context)?;
         }
